@@ -43,6 +43,8 @@ public:
     Cls *clone();
     int add(const Cls &other, Cls *third);
     Cls();
+    Cls(int v, bool quiet);          // base part of a Derived: the derived class logs
+    bool quiet_;
     Cls dup() const;
     const Cls cdup() const;
 };
@@ -52,10 +54,11 @@ const Cls fresh(int v);
 
 CLS_CPP = """
 static int ncls_ = 0;
-Cls::Cls(int v) : value(v), ro(2 * v), other(v + 0.5) { ncls_++; vt_live(1);
+Cls::Cls(int v, bool quiet) : value(v), ro(2 * v), other(v + 0.5), quiet_(quiet) { ncls_++; vt_live(1); }
+Cls::Cls(int v) : value(v), ro(2 * v), other(v + 0.5), quiet_(false) { ncls_++; vt_live(1);
     vt_begin("LibEnter", "Cls::Cls"); vt_target("ns1::Cls::Cls(int)"); vt_int(v); vt_end();
     vt_begin("LibExit", "Cls::Cls"); vt_target("ns1::Cls::Cls(int)"); vt_obj(this); vt_end(); }
-Cls::~Cls() { ncls_--; vt_live(-1);
+Cls::~Cls() { ncls_--; vt_live(-1); if (quiet_) return;
     vt_begin("LibEnter", "Cls::~Cls"); vt_target("ns1::Cls::~Cls()"); vt_obj(this); vt_end();
     vt_begin("LibExit", "Cls::~Cls"); vt_target("ns1::Cls::~Cls()"); vt_end(); }
 int Cls::get() const {
@@ -82,7 +85,7 @@ int Cls::add(const Cls &other, Cls *third) {
     vt_begin("LibEnter", "Cls::add"); vt_target("ns1::Cls::add(const Cls&,Cls*)"); vt_obj(this); vt_obj(&other); vt_obj(third); vt_end();
     int rv = value + 10 * other.value + 100 * third->value;
     vt_begin("LibExit", "Cls::add"); vt_target("ns1::Cls::add(const Cls&,Cls*)"); vt_int(rv); vt_end(); return rv; }
-Cls::Cls() : value(0), ro(0), other(0.0) { ncls_++; vt_live(1); }
+Cls::Cls() : value(0), ro(0), other(0.0), quiet_(true) { ncls_++; vt_live(1); }
 Cls Cls::dup() const { Cls rv; rv.value = value + 2000; return rv; }
 const Cls Cls::cdup() const { Cls rv; rv.value = value + 3000; return rv; }
 const Cls fresh(int v) { Cls rv; rv.value = v; return rv; }
@@ -169,9 +172,16 @@ public:
 };
 """
 DERIVED_CPP = """
-Derived::Derived(int v, int w) : Cls(v), more(w) { }
-Derived::~Derived() { }
-int Derived::extra() const { return more; }
+Derived::Derived(int v, int w) : Cls(v, true), more(w) {
+    vt_begin("LibEnter", "Derived::Derived"); vt_target("ns1::Derived::Derived(int,int)"); vt_int(v); vt_int(w); vt_end();
+    vt_begin("LibExit", "Derived::Derived"); vt_target("ns1::Derived::Derived(int,int)"); vt_obj(this); vt_end(); }
+Derived::~Derived() {
+    vt_begin("LibEnter", "Derived::~Derived"); vt_target("ns1::Derived::~Derived()"); vt_obj(this); vt_end();
+    vt_begin("LibExit", "Derived::~Derived"); vt_target("ns1::Derived::~Derived()"); vt_end(); }
+int Derived::extra() const {
+    vt_begin("LibEnter", "Derived::extra"); vt_target("ns1::Derived::extra()"); vt_obj(this); vt_end();
+    int rv = more + value;
+    vt_begin("LibExit", "Derived::extra"); vt_target("ns1::Derived::extra()"); vt_int(rv); vt_end(); return rv; }
 """
 
 
@@ -465,7 +475,12 @@ def member_trace(events, cls="Cls", out=None):
         elif ev == "LibExit" and f == cls + "::" + cls and "ctor" in pend:
             v = pend.pop("ctor")
             out.append({"op": "New", "o": oid(vals[0]["v"]), "m": "", "v": 0, "init": {"value": v, "ro": 2 * v, "alt": 4 * v + 2}})
-        elif ev == "LibEnter" and f == cls + "::~" + cls:
+        elif ev == "LibEnter" and f == "Derived::Derived":
+            pend["dctor"] = num(vals[0])
+        elif ev == "LibExit" and f == "Derived::Derived" and "dctor" in pend:
+            v = pend.pop("dctor")
+            out.append({"op": "New", "o": oid(vals[0]["v"]), "m": "", "v": 0, "init": {"value": v, "ro": 2 * v, "alt": 4 * v + 2}})
+        elif ev == "LibEnter" and f in (cls + "::~" + cls, "Derived::~Derived"):
             out.append({"op": "Delete", "o": oid(vals[0]["v"]), "m": "", "v": 0})
         elif ev == "LibEnter" and f == cls + "::set":
             out.append({"op": "LSet", "o": oid(vals[0]["v"]), "m": "value", "v": num(vals[1])})
@@ -493,6 +508,10 @@ CLS_SIGS = {
     "ns1::Cls::add(const Cls&,Cls*)": {"params": [("obj", "in"), ("obj", "in")], "self": True, "result": "int"},
     "ns1::Cls::clone()": {"params": [], "self": True, "result": "obj"},
     "ns1::Cls::~Cls()": {"params": [], "self": True, "result": "none"},
+    # a class derived from Cls (single inheritance): its own members and the inherited ones on a derived object
+    "ns1::Derived::Derived(int,int)": {"params": [("int", "in"), ("int", "in")], "self": False, "result": "obj"},
+    "ns1::Derived::extra()": {"params": [], "self": True, "result": "int"},
+    "ns1::Derived::~Derived()": {"params": [], "self": True, "result": "none"},
 }
 
 
